@@ -30,7 +30,9 @@ m = {
     ],
     "checks": [],
     "not_applicable": [{"property_id": k, "reason": v} for k, v in sorted(NOT_APPLICABLE.items())],
-    "notes": "See DESIGN.md. Exit codes: 0 held / 1 VIOLATION (replay file) / 2 UNDECIDED (solver unknown, contract misfit; never reported as violation) / 3 checker error.",
+    "notes": "See DESIGN.md. Exit codes: 0 held / 1 VIOLATION (replay file) / 2 UNDECIDED (solver unknown, solver disagreement, contract misfit; never reported as violation) / 3 checker error. "
+             "Known findings and repaired defects: known_findings.json (open findings print KNOWN-FINDING lines; 'fixed:' entries name the unguarded fix: commits in /repo: "
+             + ", ".join(sorted({w for e in json.load(open(os.path.join(ROOT, "known_findings.json"))).get("fixed", []) for w in e.split()[2:3]})) + "). No guarded hooks were added to /repo.",
 }
 for pid in sorted(CLAIMS):
     c = CLAIMS[pid]
